@@ -1462,7 +1462,18 @@ class FortranFile:
             if file_ast.end_scope_regex is not None:
                 match = FRegex.END_WORD.match(line_no_comment)
                 # Handle end statement
+                closing_scope = file_ast.current_scope
                 if self.parse_end_scope_word(line_no_comment, line_no, file_ast, match):
+                    # A label-terminated DO closed by its END DO: the label is
+                    # no longer waited for
+                    do_label = getattr(closing_scope, "do_label", None)
+                    if (
+                        do_label is not None
+                        and file_ast.current_scope is not closing_scope
+                        and block_id_stack
+                        and block_id_stack[-1] == do_label
+                    ):
+                        block_id_stack.pop()
                     continue
                 # Look for old-style end of DO loops with line labels
                 if self.parse_do_fixed_format(
@@ -1644,6 +1655,8 @@ class FortranFile:
                 if obj_info != "":
                     block_id_stack.append(obj_info)
                 new_do = Do(file_ast, line_no, name)
+                if obj_info != "":
+                    new_do.do_label = obj_info
                 file_ast.add_scope(new_do, FRegex.END_DO, req_container=True)
                 log.debug("%s !!! DO - Ln:%d", line, line_no)
 
